@@ -20,7 +20,7 @@ PRELUDE = ("From Coq Require Import List String ZArith Bool.\n"
            "From AV Require Import Engine.Core Macros.MacroModel Macros.MacroEval.\n"
            "Import ListNotations.\nClose Scope Z_scope.\nOpen Scope string_scope.\n")
 REC_MSG = "recursively defined Ascent macro"
-HANG_BUDGET = 25          # seconds; a rejected recursive macro costs well under a second of expansion
+HANG_BUDGET = 10          # seconds; a rejected recursive macro costs well under a second of expansion
 CORPUS = os.path.join(lib.VERIF, "corpus", "C08.jsonl")
 
 KNOWN = {
@@ -28,6 +28,7 @@ KNOWN = {
     1: "attached_condition_not_renamed",
     0: "generated_name_collides_with_user_identifier",
     2: "unbound_macro_identifier_captured",
+    3: "unbound_macro_identifier_captured",      # a head-position macro with identifiers of its own: nothing binds them
 }
 
 
@@ -291,14 +292,15 @@ def tie(tier, seed, replay):
         neg_kinds[c.get("kind", "corpus")] = neg_kinds.get(c.get("kind", "corpus"), 0) + 1
         res = (impl.get(c["id"] + "_m") or [None])[0]
         cs = dict(id=c["id"], program=c["text"], prog=c["prog"], negative=True, kind=c.get("kind"))
-        ok_impl = res is not None and "compile_error" in res and REC_MSG in res["compile_error"]
-        ok_model = c["model"] == ["Err", "ERecursive"]
+        msg, merr = c.get("expect_msg", REC_MSG), c.get("expect_model", "ERecursive")
+        ok_impl = res is not None and "compile_error" in res and msg in res["compile_error"]
+        ok_model = c["model"] == ["Err", merr]
         if not ok_impl:
-            mism.append(dict(case=cs, impl=res, model=c["model"], spec="rejected with: " + REC_MSG, kind="impl_violates_spec", known=None,
-                             what="a macro table with a self-referential macro is not rejected with the dedicated message: %s" % json.dumps(res)[:300]))
+            mism.append(dict(case=cs, impl=res, model=c["model"], spec="rejected with: " + msg, kind="impl_violates_spec" if merr == "ERecursive" else "model_differs", known=None,
+                             what="a macro table that must be rejected (%s) is not rejected with the expected message `%s`: %s" % (c.get("kind") or c.get("name"), msg, json.dumps(res)[:300])))
         if not ok_model:
             mism.append(dict(case=cs, impl=res, model=c["model"], spec=None, kind="model_differs", known=None,
-                             what="model expand_prog does not return Err ERecursive on a recursive macro table: %s" % (c["model"],)))
+                             what="model expand_prog does not return Err %s: %s" % (merr, c["model"])))
     # termination of the rejection (exponential expansion witnesses)
     for o in hangs:
         evaluations += 1
